@@ -309,6 +309,9 @@ pub fn run_term(trace: &Trace) -> Outcome {
     } else {
         buf.layers[0].lines.clear();
     }
+    if cfg.viewer {
+        buf.is_terminal_buffer = false;
+    }
     let mut s = Session {
         buf,
         caret: Caret::default(),
